@@ -42,13 +42,26 @@ func vfC14Run(run *vfkit.Run, cs *vfC14Case) {
 	}
 	var authElems []vfElem
 	var mu sync.Mutex
+	cutSent, restartAfterCut := false, false
 	release := make(chan struct{})
+	handlerDone := make(chan struct{})
+	peerDone := func() bool {
+		select {
+		case <-handlerDone:
+			return true
+		default:
+			return false
+		}
+	}
 	peer := vfNewPeer(func(pc *vfPeerConn) {
 		if cs.Prior && pc.N == 0 {
 			pc.Negotiate(&vfNeg{Mechs: []string{credMech}, Bind: true, ExpectPresence: true})
 			<-release
 			pc.Close()
 			return
+		}
+		if (cs.Prior && pc.N == 1) || (!cs.Prior && pc.N == 0) {
+			defer close(handlerDone)
 		}
 		if _, err := pc.Expect("stream"); err != nil {
 			return
@@ -88,6 +101,21 @@ func vfC14Run(run *vfkit.Run, cs *vfC14Case) {
 				case cs.Reply == "stanza":
 					pc.Send("<message><body>not a sasl reply</body></message>")
 					pc.idle = 400e6
+				case strings.HasPrefix(cs.Reply, "success-cut"):
+					// the connection is cut (the server's sending direction ends) inside the <success> element: that is
+					// not a success. The peer keeps reading: a client that restarts the stream acts as authenticated.
+					if cs.Reply == "success-cut" {
+						pc.Send("<success xmlns='" + vfNSSASL + "'>")
+					} else {
+						pc.Send("<success xmlns='" + vfNSSASL + "'>dj1hYmNk")
+					}
+					if tc, ok := pc.raw.(interface{ CloseWrite() error }); ok {
+						tc.CloseWrite()
+					}
+					mu.Lock()
+					cutSent = true
+					mu.Unlock()
+					pc.idle = 1500e6
 				case cs.Reply == "challenge":
 					pc.Send("<challenge xmlns='" + vfNSSASL + "'>cmVhbG09ImV4YW1wbGUi</challenge>")
 					pc.idle = 400e6
@@ -96,6 +124,11 @@ func vfC14Run(run *vfkit.Run, cs *vfC14Case) {
 					return
 				}
 			case e.Kind == "stream":
+				mu.Lock()
+				if cutSent {
+					restartAfterCut = true
+				}
+				mu.Unlock()
 				pc.Send(vfStreamHeader("jabber:client", "c14b", "localhost") + "<stream:features><bind xmlns='" + vfNSBind + "'/></stream:features>")
 			case e.Is("", "iq") && e.Child("bind") != nil:
 				pc.Send(fmt.Sprintf("<iq type='result' id='%s'><bind xmlns='%s'><jid>x@localhost/r</jid></bind></iq>", e.Attrs["id"], vfNSBind))
@@ -190,6 +223,21 @@ func vfC14Run(run *vfkit.Run, cs *vfC14Case) {
 			return
 		}
 		run.Count("failures_permanent", 1)
+	case strings.HasPrefix(cs.Reply, "success-cut"):
+		// let the peer read what the client wrote after the cut
+		vfWaitUntil(3*time.Second, func() bool {
+			mu.Lock()
+			defer mu.Unlock()
+			return restartAfterCut || peerDone()
+		})
+		mu.Lock()
+		rs := restartAfterCut
+		mu.Unlock()
+		if rs || cerr == nil {
+			run.Violation("C14/authenticated-without-complete-success:"+cs.Reply, fmt.Sprintf("the <success> element was cut off by the end of the connection, yet the client restarted the stream as if authenticated (restart seen by the peer: %v; Connect returned %v)", rs, cerr), cs)
+			return
+		}
+		run.Count("truncated_success_refused", 1)
 	default:
 		if cerr == nil {
 			run.Violation("C14/authenticated-without-success:"+cs.Reply, fmt.Sprintf("reply %q is not <success/> but Connect returned nil", cs.Reply), cs)
@@ -272,7 +320,7 @@ func TestVf_C14(t *testing.T) {
 				case 5:
 					cs.Reply = "stream-error"
 				case 6:
-					cs.Reply = []string{"stanza", "challenge"}[r.Intn(2)]
+					cs.Reply = []string{"stanza", "challenge", "success-cut", "success-cut-in-content"}[r.Intn(4)]
 				default:
 					cs.Reply = "close"
 				}
